@@ -39,6 +39,14 @@ package ice
 //@   site call GetFrom#1 assert C02 mi-covers-the-priority-that-is-read: msg.gAuthOnly
 //@   site call GetFrom#2 assert C02 mi-covers-the-role-that-is-read: msg.gAuthOnly
 //@   site call addRemoteCandidate#1 assert prflx-only-when-authenticated: a.gUserOK && a.gIntegOK
+//@   ghostvar prflxTried bool = false
+//@   ghostvar prflxTaken bool = false
+//@   site call addRemoteCandidate#1 assert C02 C06 adds-the-peer-reflexive-candidate-it-just-built-for-this-source: arg1.payload == prflxCandidate
+//@   site call addRemoteCandidate#1 ghost prflxTried := true
+//@   site call addRemoteCandidate#1 ghost prflxTaken := result
+//@   site call HandleBindingRequest#1 assert C02 C06 a-refused-peer-reflexive-candidate-ends-the-request: prflxTried ==> prflxTaken
+//@   site call handleRoleConflict#1 assert C02 C06 a-refused-peer-reflexive-candidate-ends-the-request-before-the-role-test: prflxTried ==> prflxTaken
+//@   site call NewCandidatePeerReflexive#1 assert C02 C17 the-peer-reflexive-candidate-stands-for-the-source-of-the-request-over-the-local-transport: arg0.RelAddr == "" && arg0.RelPort == 0
 //@   site call handleRoleConflict#1 assert conflict-only-when-authenticated: a.gUserOK && a.gIntegOK
 //@   site call HandleBindingRequest#1 assert selector-only-when-authenticated: a.gUserOK && a.gIntegOK
 //@   site call GetFrom#2 ghost a.gTbOK := result == nil
@@ -86,6 +94,12 @@ package ice
 //@   site call handleInboundRequest#1 assert requests-only-for-requests: msg.Type.Class == 0 && msg.Type.Method == 1 && arg4 == msg && arg2 == local
 //@   site call handleInboundRequest#1 ghost handled := true
 //@   site call handleInboundRequest#1 ghost accepted := result1
+//@   ghostvar refreshed bool = false
+//@   ghostvar knownAfter bool = false
+//@   site call findRemoteCandidate#1 ghost knownAfter := result != nil
+//@   site call handleInboundRequest#1 ghost knownAfter := result0 != nil
+//@   site call seen#1 ghost refreshed := true
+//@   ensures C04 an-accepted-message-from-a-known-candidate-refreshes-its-liveness: handled && accepted && knownAfter ==> refreshed
 //@   site call seen#1 assert liveness-refreshed-only-for-an-accepted-message-or-an-indication: (handled ==> accepted) && (!handled ==> msg.Type.Class == 1) && recv == remoteCandidate && arg0 == false
 //@   ensures unhandled-messages-change-nothing: msg == nil || local == nil || !(old(msg.Type.Method) == 1 && (old(msg.Type.Class) == 0 || old(msg.Type.Class) == 1 || old(msg.Type.Class) == 2 || old(msg.Type.Class) == 3)) ==> unchangedExcept()
 //@   site call handleInboundErrorResponse#1 assert error-responses-only-for-error-responses-and-never-on-a-failed-agent: msg.Type.Class == 3 && msg.Type.Method == 1 && arg3 == msg && arg1 == local && a.connectionState != ConnectionStateFailed
@@ -117,6 +131,7 @@ package ice
 //@   site call Store#1 ghost switched := true
 //@   ensures C17 C05 a-role-switch-re-ranks-the-listed-pairs: switched ==> pairsFollowRole(a) && (a.isControlling != 0) == (old(a.isControlling) == 0)
 //@   ensures C05 no-switch-keeps-the-role: !switched ==> a.isControlling == old(a.isControlling)
+//@   ensures C05 C03 the-selector-follows-the-new-role: switched && !a.lite ==> (a.isControlling != 0 ==> istype(a.selector, *controllingSelector)) && (a.isControlling == 0 ==> istype(a.selector, *controlledSelector))
 //@   opt nosafety
 //@   requires a != nil && msg != nil
 //@   ghostvar integ bool = false
